@@ -136,6 +136,10 @@ class SpecEval:
             class _S: pass
             fake = _S(); fake.pc = []; fake.heap = cx.heap
             alts = self.E.read_attr_obj(SV(TObj(v.ty.cls), v.t), name, fake, spec=True)
+            if len(alts) > 1 and all(isinstance(val.ty, TFunc) and isinstance(getattr(val.py, 'obj', None), types.FunctionType) for g, val in alts):
+                # a method with several overrides: the static type's method, bound; pure_call dispatches on the dynamic class
+                from .engine import static
+                return static(inspect.getattr_static(v.ty.cls, name), recv=v)
             if isinstance(alts[0][0], z3.BoolRef) or len(alts) > 1:
                 # merge alternatives (same type required)
                 res = alts[-1][1]
@@ -223,6 +227,11 @@ class SpecEval:
             guards = [lo <= k, k < hi]
         elif isinstance(it, ast.Call) and isinstance(it.func, ast.Name) and it.func.id == 'ints':
             guards = []
+        elif isinstance(it, ast.Call) and isinstance(it.func, ast.Name) and it.func.id == 'objs':
+            cls = self.W.cls_by_name(it.args[0].value)
+            k = z3.Int(fresh_name(name))
+            bound_sv = SV(TObj(cls), [k])
+            guards = [self.W.isinstance_term(k, cls)]
         elif isinstance(it, ast.Call) and isinstance(it.func, ast.Name) and it.func.id == 'strs':
             k = z3.Const(fresh_name(name), Str)
             bound_sv = SV(STR, [k])
@@ -553,6 +562,40 @@ class SpecEval:
         c2.facts = cx.facts
         return self.sev(self.fn_body_expr(sp.node), c2)
 
+    def reveal(self, v, meth, heap):
+        """for each concrete class C of v whose `meth` has a defining contract: cls(v)==C -> forall x. UF(epoch, v, x) == definition_C(heap, v, x)"""
+        facts = []
+        if not isinstance(v.ty, TObj):
+            return facts
+        for d in self.W.subclasses(v.ty.cls):
+            try:
+                fn = inspect.getattr_static(d, meth)
+            except AttributeError:
+                continue
+            if not isinstance(fn, types.FunctionType):
+                continue
+            c = contracts.REG.get(repo.qualname_of(fn))
+            if c is None or not c.defines_expr:
+                continue
+            params = list(inspect.signature(fn).parameters)[1:]
+            ptypes = self.W.param_types(fn, c)
+            env = {'self': SV(TObj(d), v.t)}
+            bound = []
+            for p in params:
+                bv = fresh(ptypes[p] if not isinstance(ptypes[p], TAny) else TObj(self.W.cls_by_name('core.wl.message.Message')), 'rv_' + p)
+                env[p] = bv
+                bound += list(bv.t)
+            from .engine import Frame
+            cx = SpecCtx(env, heap, env, heap, None, Frame(fn, c))
+            body = self.sev(self.parse(c.defines_expr), cx)
+            lhs = self.pure_call(fn, env['self'], [env[p] for p in params], cx)
+            eqn = eq(lhs, body)
+            if cx.facts:
+                eqn = z3.And([eqn] + cx.facts)
+            guard = cls_of(v.term) == self.W.class_id(d)
+            facts.append(z3.Implies(guard, z3.ForAll(bound, eqn, patterns=[t for t in lhs.t]) if bound else eqn))
+        return facts
+
     # ---- pure repo methods used in specifications (uninterpreted, see contracts .pure())
     def pure_call(self, fn, recv, args, cx):
         q = repo.qualname_of(fn)
@@ -573,6 +616,24 @@ class SpecEval:
             if len(cands) == 1:
                 fn = next(iter(cands))
                 c_inl = contracts.REG.get(repo.qualname_of(fn))
+            elif len(cands) > 1 and all(getattr(contracts.REG.get(repo.qualname_of(a)), 'kind', None) == 'inline' for a in cands):
+                # closed world, every override inlinable: a case split on the dynamic class (no abstraction, no epoch)
+                from .engine import Frame
+                res = None
+                for d in sorted(self.W.subclasses(recv.ty.cls), key=lambda k: self.W.class_id(k)):
+                    a = inspect.getattr_static(d, name)
+                    node = repo.func_ast(a)
+                    params = [p.arg for p in node.args.args]
+                    env = dict(zip(params, [SV(TObj(d), recv.t)] + args))
+                    c2 = SpecCtx(env, cx.heap, env, cx.old_heap, cx.st, Frame(a, contracts.REG[repo.qualname_of(a)]))
+                    c2.facts = cx.facts
+                    v = self.sev(self.fn_body_expr(node), c2)
+                    if res is None:
+                        res = v
+                    else:
+                        ty = join_ty(res.ty, v.ty)
+                        res = ite(cls_of(recv.term) == self.W.class_id(d), coerce(v, ty), coerce(res, ty))
+                return res
         if c_inl is not None and c_inl.kind == 'inline':
             node = repo.func_ast(fn)
             body = self.fn_body_expr(node)
